@@ -63,7 +63,8 @@ class C18(Check):
     rule = (
         "seeded creations from a recording DataFrame-like proxy, from HDF5/FITS files through recording handle proxies, "
         "from Parquet files (unit of request = row group) and from a logging random generator; lengths {1, 2, c-1, c, c+1, "
-        "2c-1, 2c, 2c+1, prime}, chunk sizes {1, 2, 3, 7, 100, n, > n}, the three patch modes, workers 1 and 4. The request "
+        "2c-1, 2c, 2c+1, prime}, chunk sizes {1, 2, 3, 7, 100, n, > n}, the three patch modes, workers 1 and 4, a third of the "
+        "cases over an existing cache with overwrite=True. The request "
         "log must be, per pass, the consecutive partition [0,c),[c,2c),... with every row exactly once, one pass (+1 only when "
         "centres are generated), no whole-input request when n > c, and no chunk handed on longer than c. "
         "non-trivial = >= 2 requests in a pass; distinct = case parameters"
@@ -162,6 +163,11 @@ class C18(Check):
                 if "z" in cols:
                     names["redshift_name"] = "z"
                 kw = dict(chunksize=chunk, max_workers=workers)
+                if case["seed"] % 3 == 0:
+                    # creation over an existing cache with overwrite=True: the input is still read once
+                    prior = pd.DataFrame(dict(ra=[1.0, 2.0, 3.0], dec=[0.0, 1.0, 2.0], patch=[0, 1, 1]))
+                    Catalog.from_dataframe(tmp / "cat", prior, ra_name="ra", dec_name="dec", patch_name="patch", max_workers=1)
+                    kw["overwrite"] = True
                 if mode == "centres":
                     kw["patch_centers"] = cats.coords_obj(centres)
                 elif mode == "index":
